@@ -162,3 +162,18 @@ package index
 //gvc:  results id err
 //gvc:  ensures sized: err == nil ==> len(id) == e.hash.#hsize
 //gvc:end
+
+// encodeHeader (C12 / C20: decoding what was written gives back what was
+// encoded, so the storage may cache the index it has just written): the header
+// carries the index's own version and entry count, not values derived from
+// the entries.
+//gvc:func (*Encoder).encodeHeader
+//gvc:  props C12 C20
+//gvc:  theory int
+//gvc:  opt coarse
+//gvc:  opt frame args
+//gvc:  requires nn: idx != nil
+//gvc:  sink Write requires version: arg2 == idx.Version
+//gvc:  sink Write requires count: len(idx.Entries) <= 0xffffffff ==> arg3 == len(idx.Entries)
+//gvc:  ensures wrote: calls("Write") == 1
+//gvc:end
